@@ -121,6 +121,9 @@ pub struct Case {
     pub pos: usize,
     pub kind: Bad,
     pub own: bool,
+    /// the node under test is the payer whose outputs the candidate blocks spend (its wallet is
+    /// touched by winding and unwinding them)
+    pub payer: bool,
 }
 
 struct Built {
@@ -132,7 +135,7 @@ struct Built {
 }
 
 fn build(c: &Case) -> Result<Built, String> {
-    let node_key = if c.own { key(0) } else { key(9) };
+    let node_key = if c.payer { key(1) } else if c.own { key(0) } else { key(9) };
     let mut w = World::new(Cfg::new(c.g, HEARTBEAT));
     let k1 = key(1);
     let k2 = key(2);
@@ -232,7 +235,7 @@ fn trace_fields(o: &Obs) -> Obs {
 }
 
 fn run_case(c: &Case, rep: &mut Report, seen: &mut BTreeSet<Hash>) {
-    let ctx = json!({"g": c.g, "slow": c.slow, "a": c.a, "b": c.b, "pos": c.pos, "kind": format!("{:?}", c.kind), "own_creator": c.own});
+    let ctx = json!({"g": c.g, "slow": c.slow, "a": c.a, "b": c.b, "pos": c.pos, "kind": format!("{:?}", c.kind), "own_creator": c.own, "node_is_payer": c.payer});
     let bt = match build(c) {
         Ok(b) => b,
         Err(e) => {
@@ -242,9 +245,9 @@ fn run_case(c: &Case, rep: &mut Report, seen: &mut BTreeSet<Hash>) {
     };
     let w = &bt.w;
     let _ = &bt.next_old;
-    let node_key = if c.own { key(0) } else { key(9) };
+    let node_key = if c.payer { key(1) } else if c.own { key(0) } else { key(9) };
     let mut n = LedgerNode::new(node_key, w.cfg.clone());
-    let kprefix = format!("g{}/{:?}/pos{}of{}/a{}/slow{}", c.g, c.kind, c.pos + 1, c.b, c.a, c.slow);
+    let kprefix = format!("g{}/{:?}/pos{}of{}/a{}/slow{}{}", c.g, c.kind, c.pos + 1, c.b, c.a, c.slow, if c.payer { "/node-is-payer" } else { "" });
     for &i in bt.stem.iter().chain(bt.old.iter()) {
         match n.add_block_bytes(&w.blocks[i].bytes) {
             Outcome::Done(AddRes::AddedLongest) => {}
@@ -401,9 +404,12 @@ pub fn cases(tier: &Tier) -> Vec<Case> {
                         }
                         let slows: Vec<u64> = if b == a + 2 && a >= 1 { vec![200, 300, 400, 625] } else { vec![200] };
                         for slow in slows {
-                            v.push(Case { g: 10, slow, a, b, pos, kind, own });
+                            v.push(Case { g: 10, slow, a, b, pos, kind, own, payer: false });
                             if kind == Bad::SignedField || (tier.thorough && kind == Bad::TxSpent) {
-                                v.push(Case { g: 3, slow, a, b, pos, kind, own });
+                                v.push(Case { g: 3, slow, a, b, pos, kind, own, payer: false });
+                            }
+                            if !own && (kind == Bad::SignedField || kind == Bad::TxSpent || kind == Bad::GtDensity) {
+                                v.push(Case { g: 10, slow, a, b, pos, kind, own, payer: true });
                             }
                         }
                     }
@@ -421,7 +427,7 @@ pub fn main(tier: Tier, replay: Option<String>) -> i32 {
         let v: Value = serde_json::from_str(&s).expect("json");
         let ctx = &v["case"]["ctx"];
         let kind = KINDS.iter().find(|k| format!("{:?}", k) == ctx["kind"].as_str().unwrap()).cloned().unwrap();
-        let c = Case { g: ctx["g"].as_u64().unwrap_or(10), slow: ctx["slow"].as_u64().unwrap_or(200), a: ctx["a"].as_u64().unwrap() as usize, b: ctx["b"].as_u64().unwrap() as usize, pos: ctx["pos"].as_u64().unwrap() as usize, kind, own: ctx["own_creator"].as_bool().unwrap() };
+        let c = Case { g: ctx["g"].as_u64().unwrap_or(10), slow: ctx["slow"].as_u64().unwrap_or(200), a: ctx["a"].as_u64().unwrap() as usize, b: ctx["b"].as_u64().unwrap() as usize, pos: ctx["pos"].as_u64().unwrap() as usize, kind, own: ctx["own_creator"].as_bool().unwrap(), payer: ctx["node_is_payer"].as_bool().unwrap_or(false) };
         let mut outs = vec![];
         for _ in 0..2 {
             let mut r = rep.child();
